@@ -1,9 +1,12 @@
 package main
 
 import (
+	"fmt"
 	"go/ast"
 	"go/constant"
 	"go/types"
+	"sort"
+	"strings"
 )
 
 func init() {
@@ -133,28 +136,171 @@ func c12(c *Ctx) {
 		good, why := true, ""
 		n := 0
 		inspectNoLit(fn.Body(), func(nd ast.Node) bool {
-			ie, ok := nd.(*ast.IndexExpr)
-			if !ok || !isField(info, ie.X, fVals) {
-				return true
-			}
-			n++
-			idx := unparen(ie.Index)
-			if id, isID := idx.(*ast.Ident); isID {
-				// key := attr.Equivalent() computed once
-				if def := ax.FG(fn).LocalDef(info.Uses[id]); def != nil {
-					idx = unparen(def)
-				}
-			}
-			call, ok := idx.(*ast.CallExpr)
-			if !ok || !isCallTo(info, call, "(*go.opentelemetry.io/otel/attribute.Set).Equivalent") {
-				good, why = false, "index "+exprStr(ie.Index)
-				return true
-			}
-			if recv, _ := methodCall(info, call); recv == nil || !sameVar(info, recv, attr) {
-				good, why = false, "index "+exprStr(ie.Index)+" does not use the limiter's result"
+			if ie, ok := nd.(*ast.IndexExpr); ok && isField(info, ie.X, fVals) {
+				n++
 			}
 			return true
 		})
+		// What matters is what can be INSERTED: on every path to a write values[k] = …, k is the identity of the set the limiter
+		// returned (against this map), or k is known to be in the map already (the true arm of `_, ok := values[k]` with k
+		// unchanged since). Reading by the unlimited key is harmless — it is how a fast path for known sets looks.
+		// Decided per path: a walk over (vertex, facts) with the facts {limited variables, "the write's key is present"}.
+		{
+			g := ax.FG(fn)
+			type st struct {
+				lim  string       // sorted names of the variables that hold a limiter-derived value (by object id)
+				okOf types.Object // the ok variable that reflects a lookup of the key (nil: none)
+				pres bool
+			}
+			for _, w := range g.Nodes {
+				was, isAs := w.N.(*ast.AssignStmt)
+				if !isAs {
+					continue
+				}
+				var wkey ast.Expr
+				for _, l := range was.Lhs {
+					if ie, ok := unparen(l).(*ast.IndexExpr); ok && isField(info, ie.X, fVals) {
+						wkey = unparen(ie.Index)
+					}
+				}
+				if wkey == nil {
+					continue
+				}
+				sI := exprStr(wkey)
+				mentions := func(v types.Object) bool {
+					hit := false
+					ast.Inspect(wkey, func(m ast.Node) bool {
+						if id, ok := m.(*ast.Ident); ok && info.Uses[id] == v {
+							hit = true
+						}
+						return !hit
+					})
+					return hit
+				}
+				limSet := func(s string) map[string]bool {
+					out := map[string]bool{}
+					for _, p := range strings.Split(s, ",") {
+						if p != "" {
+							out[p] = true
+						}
+					}
+					return out
+				}
+				limStr := func(m map[string]bool) string {
+					var ks []string
+					for k, v := range m {
+						if v {
+							ks = append(ks, k)
+						}
+					}
+					sort.Strings(ks)
+					return strings.Join(ks, ",")
+				}
+				id := func(o types.Object) string { return fmt.Sprintf("%s@%d", o.Name(), o.Pos()) }
+				isLimited := func(e ast.Expr, lim map[string]bool) bool {
+					e = unparen(e)
+					if call, ok := e.(*ast.CallExpr); ok {
+						if callToDecl(info, limAttr)(call) && len(call.Args) == 2 && sameVar(info, call.Args[0], fltr) && isField(info, call.Args[1], fVals) {
+							return true
+						}
+						if isCallTo(info, call, "(*go.opentelemetry.io/otel/attribute.Set).Equivalent") {
+							if recv, _ := methodCall(info, call); recv != nil {
+								if o := objOf(info, recv); o != nil && lim[id(o)] {
+									return true
+								}
+								if rc, isC := unparen(recv).(*ast.CallExpr); isC && callToDecl(info, limAttr)(rc) {
+									return true
+								}
+							}
+						}
+						return false
+					}
+					if o := objOf(info, e); o != nil {
+						if _, isID := e.(*ast.Ident); isID {
+							return lim[id(o)]
+						}
+					}
+					return false
+				}
+				transfer := func(x *GNode, s st) st {
+					as, ok := x.N.(*ast.AssignStmt)
+					if !ok {
+						return s
+					}
+					lim := limSet(s.lim)
+					if len(as.Lhs) == 2 && len(as.Rhs) == 1 {
+						// v, ok := values[K]
+						if ie, isIx := unparen(as.Rhs[0]).(*ast.IndexExpr); isIx && isField(info, ie.X, fVals) {
+							if o := objOf(info, as.Lhs[1]); o != nil {
+								if exprStr(unparen(ie.Index)) == sI {
+									s.okOf = o
+								} else if s.okOf == o {
+									s.okOf = nil
+								}
+							}
+							if o := objOf(info, as.Lhs[0]); o != nil {
+								delete(lim, id(o))
+							}
+							s.lim = limStr(lim)
+							return s
+						}
+					}
+					for i, l := range as.Lhs {
+						lid, isID := unparen(l).(*ast.Ident)
+						if !isID {
+							continue
+						}
+						o := objOf(info, lid)
+						if o == nil {
+							continue
+						}
+						if s.okOf == o {
+							s.okOf = nil
+						}
+						if mentions(o) {
+							s.pres = false
+							s.okOf = nil
+						}
+						delete(lim, id(o))
+						if len(as.Lhs) == len(as.Rhs) && isLimited(as.Rhs[i], limSet(s.lim)) {
+							lim[id(o)] = true
+						}
+					}
+					s.lim = limStr(lim)
+					return s
+				}
+				type key struct {
+					x *GNode
+					s st
+				}
+				seen := map[key]bool{}
+				var q []key
+				push := func(k key) {
+					if !seen[k] {
+						seen[k] = true
+						q = append(q, k)
+					}
+				}
+				push(key{g.Entry, st{}})
+				for len(q) > 0 {
+					k := q[0]
+					q = q[1:]
+					if k.x == w {
+						if !(k.s.pres || isLimited(wkey, limSet(k.s.lim))) {
+							good, why = false, "a path reaches the insertion values["+sI+"] = … with a key that is neither the limiter's result nor known to be in the map"
+						}
+					}
+					out := transfer(k.x, k.s)
+					for _, e := range k.x.Succs {
+						ns := out
+						if ns.okOf != nil && edgeImplies(e, func(cnd ast.Expr, pol int) bool { return pol > 0 && objOf(info, cnd) == ns.okOf }) {
+							ns.pres = true
+						}
+						push(key{e.To, ns})
+					}
+				}
+			}
+		}
 		// the limit decision and the insertion are one critical section: no release between the limiter call and any write of the map
 		{
 			g := ax.FG(fn)
